@@ -62,6 +62,10 @@ var conflictEdits = []conflictEdit{
 	{"shared-id-field-different-nullability", "type ShIdN { id: ID! a: Int }", "type ShIdN { id: ID a: Int }"},
 	{"shared-id-field-different-arg-set", "type ShIdA { id: ID! a: Int }", "type ShIdA { id(x: Int): ID! a: Int }"},
 	{"input-shared-id-field-different-type", "input ShIdIn { id: ID! a: Int }", "input ShIdIn { id: Int a: Int }"},
+	{"shared-field-different-list-default", "type ShLd { a(x: [String!] = [\"name\"]): Int }", "type ShLd { a(x: [String!] = [\"createdAt\"]): Int }"},
+	{"shared-input-field-different-list-default", "input ShLdIn { s: [String!] = [\"a\"] }", "input ShLdIn { s: [String!] = [\"b\"] }"},
+	{"shared-input-field-different-object-default", "input PtD { x: Int }\ninput ShOdIn { p: PtD = {x: 1} }", "input PtD { x: Int }\ninput ShOdIn { p: PtD = {x: 2} }"},
+	{"shared-field-different-object-default", "input PtE { x: Int }\ntype ShOd { a(p: PtE = {x: 1}): Int }", "input PtE { x: Int }\ntype ShOd { a(p: PtE = {x: 2}): Int }"},
 	{"shared-field-different-type", "type Sh { a: Int }", "type Sh { a: String }"},
 	{"shared-field-different-nullability", "type Sh { a: Int }", "type Sh { a: Int! }"},
 	{"shared-field-different-list", "type Sh { a: [Int] }", "type Sh { a: Int }"},
